@@ -95,7 +95,7 @@ def tiers(tier, seed):
     """(shapes, configurations, scenarios, ops, sanitize)"""
     rng = S.SplitMix(seed * 2654435761 + 17)
     if tier == 'quick':
-        nshapes, scen, ops, san = 14, 24, 45, False
+        nshapes, scen, ops, san = 9, 24, 45, False
         limits = dict(max_states=20, max_depth=4, max_width=6)
     else:
         nshapes, scen, ops, san = 120, 120, 70, True
@@ -103,10 +103,28 @@ def tiers(tier, seed):
     pool = S.corpus() + [S.random_shape(rng, **limits) for _ in range(nshapes * 6)]
     jobs = []
     seen = set()
-    k = 0
-    for sh in FIXED_SHAPES() + pool:
+
+    def add(sh, cfg):
+        if E.usable(sh, cfg):
+            return False
+        key = S.to_sexpr(sh) + json.dumps(cfg, sort_keys=True)
+        if key in seen:
+            return False
+        seen.add(key)
+        jobs.append((sh, cfg))
+        return True
+
+    # every run: the fixed shapes under the configurations that change control flow most
+    variants = [dict(), dict(bottomup=1, manual=1), dict(log=2, limit=1, payload=2), dict(bottomup=1, log=0, taskcap=1, payload=3)]
+    for sh in FIXED_SHAPES():
+        for v in (variants if tier != 'quick' else variants[:3]):
+            cfg = dict(E.DEFAULTS)
+            cfg.update(v)
+            add(sh, cfg)
+    fixed = len(jobs)
+    for sh in pool:
         cfg = dict(E.DEFAULTS)
-        # vary the configuration with the shape index (deterministic in seed)
+        # vary the configuration with the shape (deterministic in seed)
         r = rng.below(1 << 30)
         cfg['bottomup'] = r & 1
         cfg['manual'] = (r >> 1) & 1
@@ -114,17 +132,8 @@ def tiers(tier, seed):
         cfg['log'] = [1, 1, 2, 0][(r >> 4) & 3]
         cfg['payload'] = [1, 1, 2, 3][(r >> 6) & 3]
         cfg['taskcap'] = [0, 0, 1, 3][(r >> 8) & 3]
-        if k < 3:
-            cfg = dict(E.DEFAULTS)
-        if E.usable(sh, cfg):
-            continue
-        key = S.to_sexpr(sh)
-        if key in seen:
-            continue
-        seen.add(key)
-        jobs.append((sh, cfg))
-        k += 1
-        if k >= nshapes:
+        add(sh, cfg)
+        if len(jobs) >= fixed + nshapes:
             break
     return jobs, scen, ops, san
 
